@@ -116,7 +116,7 @@ def check_triple(start, dt, n, channels):
             direct = [(th1(t), c1(t)) for t in want]
             s_direct = [s21(t) for t in want]
             m2, th2, c2, s22 = build_threshold(start, dt, stop, want[j])
-            s22(want[-1])
+            s22(want[min(n, 40)])      # (a cold evaluation far from the start recurses once per step: keep it shallow)
             rec = [(th2(t), c2(t)) for t in want]
             s_rec = [s22(t) for t in want]
             if direct != rec:
